@@ -98,10 +98,24 @@ func (n *vpNext) Block(ctx context.Context, height *int64) (*ctypes.ResultBlock,
 	switch n.tamper {
 	case 1: // another block's body under this block's header (through the wire format)
 		pb, _ := b.ToProto()
-		pb.Data.Txs = [][]byte{{0x66}}
+		var txs types.Txs
+		switch n.sub {
+		case 0: // other transactions
+			txs = types.Txs{{0x66}}
+		case 1: // every transaction withheld
+			txs = nil
+		case 2: // the last transaction withheld
+			txs = append(types.Txs{}, b.Data.Txs[:len(b.Data.Txs)-1]...)
+		case 3: // one more transaction
+			txs = append(append(types.Txs{}, b.Data.Txs...), types.Tx{0x66})
+		}
+		pb.Data.Txs = nil
+		for _, tx := range txs {
+			pb.Data.Txs = append(pb.Data.Txs, tx)
+		}
 		nb, err := types.BlockFromProto(pb)
 		if err != nil {
-			nb = &types.Block{Header: b.Header, Data: types.Data{Txs: types.Txs{{0x66}}}, LastCommit: b.LastCommit}
+			nb = &types.Block{Header: b.Header, Data: types.Data{Txs: txs}, LastCommit: b.LastCommit}
 		}
 		return &ctypes.ResultBlock{BlockID: id, Block: nb}, nil
 	case 2: // a self-consistent block that is not the verified one
@@ -206,6 +220,9 @@ func vpC20(method int) {
 	case 0:
 		if !honest {
 			tamper = 1 + vp.Choice("tamper-block", 2)
+			if tamper == 1 {
+				next.sub = vp.Choice("tamper-body", 4)
+			}
 		}
 		next.tamper = tamper
 		res, err := cl.Block(ctx, &h)
@@ -216,6 +233,9 @@ func vpC20(method int) {
 	case 1:
 		if !honest {
 			tamper = 1 + vp.Choice("tamper-block", 2)
+			if tamper == 1 {
+				next.sub = vp.Choice("tamper-body", 4)
+			}
 		}
 		next.tamper = tamper
 		res, err := cl.BlockByHash(ctx, c.ids[h].Hash)
